@@ -14,7 +14,7 @@ from ..gen import surface
 from ..gen.programs import Cfg
 from . import c02
 
-MODULES = ["ESV.Props.C01"]
+MODULES = c02.MODULES
 THEOREMS = c02.THEOREMS
 
 
